@@ -89,6 +89,20 @@ def run(chk, opts):
     print("EXTENSION-FINDING: plugins.use_default_einsum() restores ONE saved einsum into whatever backend is current: "
           "model PrevScope=global violates %s (shortest witness: select jax; use_opt_einsum; [other thread / other backend] "
           "use_default_einsum -> numpy runs jax's einsum); the real code conforms to that model" % ", ".join(broken))
+    # 1b. unbounded: Apalache discharges an inductive invariant of the repaired scope (behaviours of any length)
+    apa = {}
+    for name, args in (("init", ["--init=Init", "--inv=IndInv", "--length=0"]), ("step", ["--init=IndInv", "--inv=IndInv", "--length=1"]),
+                       ("implies", ["--init=IndInv", "--inv=Promises", "--length=0"])):
+        try:
+            r2 = subprocess.run(["apalache-mc", "check"] + args + ["--out-dir=" + os.path.join(chk.work, "apa"), "PluginEinsumInd.tla"],
+                                cwd=os.path.join(tlc.SPEC_DIR, "apalache"), capture_output=True, text=True, timeout=900)
+            apa[name] = "EXITCODE: OK" in r2.stdout
+        except Exception as ex:          # noqa
+            apa[name] = False
+        if not apa[name]:
+            chk.machinery.append("Apalache obligation %s of PluginEinsumInd not discharged" % name)
+    chk.notes["apalache_inductive"] = apa
+    chk.checker_cmds.append("apalache-mc check --init=IndInv --inv=IndInv --length=1 PluginEinsumInd.tla (+ init, implies)")
     # 2. spec -> code: every transition of the as-found model's state graph
     dot = os.path.join(chk.work, "pgraph.dot")
     g = tlc.run("PluginEinsumMC", "PluginEinsumGraph_thorough.cfg" if thorough else "PluginEinsumGraph.cfg", workers=4, dump=dot, timeout=900)
